@@ -65,7 +65,10 @@ Bind == IF cfg.mode = "server" THEN ServerBind(r', Ev[l].obs) ELSE ClientBind(r'
 TrArrive == IsEvent("arrive") /\ Arrive(Ev[l].args[1]) /\ Bind
 TrEof == IsEvent("eof") /\ PeerClose /\ Bind
 TrRespond == IsEvent("respond") /\ Respond /\ Bind
-TrTimeout == IsEvent("timeout") /\ BodyTimeout /\ Bind
+(* "timeout" = the clock advances by the body timeout: it fires if a body is being read, else nothing happens *)
+TrTimeout == /\ IsEvent("timeout")
+             /\ IF CanTimeout(r, cfg) THEN BodyTimeout ELSE UNCHANGED <<vars, step>>
+             /\ Bind
 TrShutdown == IsEvent("shutdown") /\ Shutdown /\ Bind
 TraceNext == TrArrive \/ TrEof \/ TrRespond \/ TrTimeout \/ TrShutdown
 TraceSpec == TraceInit /\ [][TraceNext]_<<vars, step, tid, l>>
